@@ -1223,6 +1223,14 @@ def remove_duplicate_functions(source: str, preserve: Collection[str]) -> str:
             return source
 
         source = renamed_source
+        # The positions of the duplicates are different in the renamed code
+        root = core.parse(source)
+        delete_names = {node.name for node in delete}
+        delete = {
+            node
+            for node in core.filter_nodes(root.body, ast.FunctionDef)
+            if node.name in delete_names
+        }
     if delete:
         source = processing.remove_nodes(source, delete, root)
 
